@@ -23,6 +23,7 @@ from ..engine import LVec
 from ..verdict import Result
 
 LEVEL = "exploration"
+REPS = {"quick": 1, "thorough": 12}
 RULE = ("20 coordinate systems x 2 flavors x shapes {(n,), (a,b), (a,b,c)} x index expressions (every integer tuple; slices with "
         "steps/negatives; boolean masks; fancy indices; Ellipsis/newaxis; reshape, T, ravel, flatten, view, copy, astype-free "
         "views) x field names and synonyms x asarray/asanyarray/__array__ x pickle protocols 0-5 / copy / deepcopy; a cell is "
